@@ -537,6 +537,13 @@ class BuiltinModelLoaderGen(ModelLoaderGen):
                         for key in set({state.v_data}) - {state.v_known_keys}:
                             {state.v_extra}[key] = {state.v_data}[key]
                     """
+                    if not state.path and self._name_layout.extra_move == ExtraKwargs():
+                        # only strings can be passed as `**kwargs`
+                        state.builder += f"""
+                            {state.v_extra}_set = {{key for key in {state.v_extra} if not isinstance(key, str)}}
+                            if {state.v_extra}_set:
+                                {state.emit_error(f"ExtraFieldsLoadError({state.v_extra}_set, {state.v_data})")}
+                        """
                     state.builder.empty_line()
 
             if self._can_collect_extra:
